@@ -120,7 +120,7 @@ def split_packets(buf):
 
 
 def build_packet(tag, body, fmt='new', lentype=None, chunks=None):
-    """fmt 'new': lentype None|1|2|5, or chunks=[sizes...] (powers of two, last arbitrary) for partial.
+    """fmt 'new': lentype None|1|2|5, or chunks=[sizes...] (powers of two, last arbitrary; lentype = form of the final length) for partial.
     fmt 'old': lentype None (narrowest) | 0 | 1 | 2 | 3(indeterminate)."""
     body = bytes(body)
     if fmt == 'new':
@@ -140,7 +140,7 @@ def build_packet(tag, body, fmt='new', lentype=None, chunks=None):
             last = body[pos:]
             if len(last) != chunks[-1]:
                 raise WireError('chunks do not add up')
-            out += new_len_encode(len(last))
+            out += new_len_encode(len(last), lentype)
             out += last
             return bytes(out)
         return h + new_len_encode(len(body), lentype) + body
